@@ -2,6 +2,8 @@
 use mc_core::Ctx;
 
 mod c09;
+mod common;
+mod seqx;
 mod c10;
 mod c43;
 
